@@ -126,7 +126,12 @@ func (am *YAMLAccountManager) Update(account hotline.Account, newLogin string) e
 		return err
 	}
 
-	if err := os.WriteFile(filepath.Join(am.accountDir, newLogin+".yaml"), out, 0644); err != nil {
+	// Replace the account file atomically: write a temporary file, then rename it over the final name.
+	accountPath := filepath.Join(am.accountDir, newLogin+".yaml")
+	if err := os.WriteFile(accountPath+".tmp", out, 0644); err != nil {
+		return fmt.Errorf("error writing account file: %w", err)
+	}
+	if err := os.Rename(accountPath+".tmp", accountPath); err != nil {
 		return fmt.Errorf("error writing account file: %w", err)
 	}
 
